@@ -64,6 +64,17 @@ func c11Positions(c *Ctx, idx int) {
 	if idx%40 == 0 {
 		s = c11String(r, 200)
 	}
+	if idx%40 == 20 {
+		// one encoded width only (what a fast path guards on), at lengths around
+		// the block sizes such paths use
+		class := [][]string{{"a", "b", "z", " ", ",", "A"}, {"é", "ü", "߿", "́"}, {"✓", "日", "�"}, {"𝌆", "😀", "\U0010ffff"}, {"a", "b", "日"}, {"a", "é"}}[(idx/40)%6]
+		n := []int{15, 16, 17, 31, 32, 33, 63, 64, 65, 100, 127, 128, 129, 200, 255, 256, 257}[((idx/40)*7)%17]
+		var b strings.Builder
+		for i := 0; i < n; i++ {
+			b.WriteString(gen.Pick(r, class))
+		}
+		s = b.String()
+	}
 	n := utf8.RuneCountInString(s)
 	rs := []rune(s)
 	sub := ""
@@ -353,7 +364,7 @@ func c11Rename(c *Ctx, idx int) {
 func init() {
 	Register(&Property{
 		ID:            "C11",
-		Rule:          "strings over an alphabet of 1- to 4-byte code points, combining marks, U+FFFD, U+10FFFF and the empty string (length 0..6, some up to 200): every position parameter over [-len-2, len+2] and +-2^31/2^62 through slices, find_first/find_last (2-4 arguments), pad_left/pad_right (pad characters of every width), split on '' and on substrings with counts, replace with counts, plus length/reverse/join/trim/contains/starts_with/ends_with/sort/min/max(_by) incl. pairs ordered differently by UTF-16 unit and by code point - compared with the reference model on code points; every string in every result checked for UTF-8 validity; renaming relation: a-z mapped order-preservingly to 2-, 3- and 4-byte letters in expression and data must rename the result the same way (library against itself); non-trivial = model decides (positions/order), result contains renamed letters (renaming)",
+		Rule:          "strings over an alphabet of 1- to 4-byte code points, combining marks, U+FFFD, U+10FFFF and the empty string (length 0..6, some up to 200, and strings of one encoded width only - 1, 2, 3 or 4 bytes - or two widths, at lengths 15..257 around the usual block sizes): every position parameter over [-len-2, len+2] and +-2^31/2^62 through slices, find_first/find_last (2-4 arguments), pad_left/pad_right (pad characters of every width), split on '' and on substrings with counts, replace with counts, plus length/reverse/join/trim/contains/starts_with/ends_with/sort/min/max(_by) incl. pairs ordered differently by UTF-16 unit and by code point - compared with the reference model on code points; every string in every result checked for UTF-8 validity; renaming relation: a-z mapped order-preservingly to 2-, 3- and 4-byte letters in expression and data must rename the result the same way (library against itself); non-trivial = model decides (positions/order), result contains renamed letters (renaming)",
 		MinNontrivial: 5000,
 		Streams: []Stream{
 			{Name: "positions", N: func(c *Ctx) int { return tierN(c, 1500, 100000) }, Run: c11Positions},
